@@ -60,6 +60,25 @@ func guardRangeObl(P *Program, R *Report, rule, construct, subjName string, subj
 
 func init() {
 	register("C01",
+		Rule{ID: "C01.j", Explain: "the randomized signature A is a unit: A is chosen by the prover and is a base of the verified relation, so it has to be invertible modulo N - with A = 0 (or N, 2N) the reconstructed commitment is 0 whatever the responses are, and a proof made up without a credential is accepted. reconstructZ returns a commitment only after a value that depends on A was inverted modulo N successfully (ModInverse result nil-tested) or after gcd(A, N) = 1 was tested.",
+			Run: func(P *Program, R *Report) {
+				fn := mustFunc(P, R, "C01.j", "gabi.(*ProofD).reconstructZ")
+				if fn == nil {
+					return
+				}
+				inv := func(a Atom) bool {
+					if a.Want != NonNil {
+						return false
+					}
+					c, _ := callAndResult(a.V)
+					if c == nil || bigMethod(c) != "ModInverse" || len(callArgs(c)) < 3 || desc(callArgs(c)[2]) != pkD+".N" {
+						return false
+					}
+					return descSet(deps(P, callArgs(c)[1]))["<gabi.ProofD>.A"]
+				}
+				mp(P, R, "C01.j", "gabi.(*ProofD).reconstructZ:A-invertible", "a commitment is returned => A was shown to be invertible modulo N", fn, AcceptNilErr(1),
+					&MustPass{Match: anyOf(inv, invertibleMatcher(P, is("<gabi.ProofD>.A"), pkD+".N"))})
+			}},
 		Rule{ID: "C01.i", Explain: "the derived lengths are the specified ones: MakeDerivedParameters computes every derived system parameter as the linear combination of the base parameters that the Idemix specification gives (Le = Lstatzk+Lh+Lm+5, LeCommit = LePrime+Lstatzk+Lh, LmCommit = Lm+Lstatzk+Lh, LsCommit = LmCommit+1, Lv = Ln+2*Lstatzk+Lh+Lm+4, LvCommit = Lv+Lstatzk+Lh, LRA = LvPrime = Ln+Lstatzk, LvPrimeCommit = Ln+2*Lstatzk+Lh), compared as normalised affine forms (how the sum is written does not matter). Prover randomizers and the verifier's response bounds both read these values, so a wrong one keeps honest flows working while widening what the verifier accepts (an e-response bound derived from Le instead of LePrime admits the trivial signature e = 1).",
 			Run: func(P *Program, R *Report) { derivedParametersRule(P, R, "C01.i") }},
 		Rule{ID: "C01.a", Explain: "(*ProofD).VerifyWithChallenge: on every accepting path the proof's own C was compared equal to the challenge parameter (must-pass over the SSA CFG, callee-aware). Does not decide soundness of the Schnorr proof.",
